@@ -4,7 +4,7 @@ from gosym.check import Task
 ID = 'C02'
 PKG = 'pkg/frame'
 HARNESS_FILES = ['pkg/x25/zz_verif_c02.go', 'pkg/frame/zz_verif_common.go', 'pkg/frame/zz_verif_dialect.go',
-                 'pkg/frame/zz_verif_c02.go']
+                 'pkg/frame/zz_verif_c02.go', 'pkg/frame/zz_verif_c06.go', 'pkg/frame/zz_verif_c02s.go']
 ALLOW = 'bufio,io,encoding/binary,errors,bytes'
 INITS = 'io,bufio,errors,github.com/bluenviron/gomavlib/v3/pkg/message'
 OPTIONS = {}
@@ -33,11 +33,13 @@ def tasks(tier):
                 ts.append(Task('verifHarness_C02_R', [v, n, cut], UF))
     for n in (0, 1, 5, 9):
         ts.append(Task('verifHarness_C02_H', [n], UF))
+    for n in ((1, 5, 6) if tier == 'quick' else (0, 1, 2, 5, 6, 9, 15, 19)):
+        ts.append(Task('verifHarness_C02_RS', [n], UF))
     return ts
 
 
 def required_reach(tier):
-    return ['C02/L1', 'C02/L2', 'C02/G', 'C02/X', 'C02/R', 'C02/H']
+    return ['C02/L1', 'C02/L2', 'C02/G', 'C02/X', 'C02/R', 'C02/H', 'C02/RS']
 
 
 def bounds(tier):
@@ -47,6 +49,7 @@ def bounds(tier):
             'G_sequence': 'payload lengths %s; every header byte, id < 2^24, CRC_EXTRA and payload byte symbolic; crcstep uninterpreted' % gl,
             'R_gate': 'payload lengths %s + exact sizes of the 4 harness messages; both versions; every header/payload/checksum byte symbolic; transport delivering the frame whole or cut after 6 / 11 bytes' % rl,
             'H_header_damage': 'v2 frame with arbitrary 24-bit id, header bytes, checksum, payload of 0,1,5,9 bytes: decoded only if the wire id is a dialect id and the checksum is the spec value over the wire bytes',
+            'RS_keyed_reader': 'reader with a dialect and an InKey, signed v2 frame carrying the spec signature (SHA-256 uninterpreted), arbitrary key, header, timestamp, payload and carried checksum, payload lengths 1,5,6 (quick) / 0,1,2,5,6,9,15,19 (thorough): delivered iff the carried checksum is the spec value',
             'dialect': 'harness dialect of 4 message shapes (scalars, string+scalar, extensions, enum array)'}
 
 
